@@ -15,6 +15,18 @@ for block in re.split(r'^######## ', log, flags=re.M)[1:]:
     caught = re.search(r'^CAUGHT-BY:(.*)$', block, flags=re.M)
     sigs = re.findall(r'^   (C\d\d): VIOLATION x(\d+) \(rc=1\):\s+signature: (.*)$', block, flags=re.M)
     applies = 'PATCH-DOES-NOT-APPLY' not in block
+    mpath = os.path.join(root, 'seeded', sid, 'meta.json')
+    if not results and os.path.exists(mpath):
+        # a --checks-only run: keep the confirmation record, refresh the detection record
+        meta = json.load(open(mpath))
+        meta["caught_by"] = caught.group(1).split() if caught else []
+        meta["signatures"] = {c: s for c, n, s in sigs}
+        own = [s for c, n, s in sigs if c == meta["property"]]
+        meta["first_signature"] = own[0] if own else (sigs[0][2] if sigs else "")
+        meta["checks_run_against_repo_head"] = head
+        json.dump(meta, open(mpath, 'w'), indent=1)
+        print(sid, 'updated', meta["caught_by"])
+        continue
     meta = {
         "id": sid,
         "property": d["property"],
